@@ -163,6 +163,8 @@ def c06_spec(draw, max_glyphs=9, max_passes=3):
                         c = draw(st.integers(0, 3))
                         if c == 0:
                             it['attrs'].append(['advx', 0, ['lit', draw(st.integers(0, 99)) * 10]])
+                            if draw(st.integers(0, 2)) == 0:
+                                it['attrs'].append(['advy', 0, ['lit', draw(st.integers(-20, 20)) * 10]])
                         elif c == 1:
                             it['attrs'].append(['shiftx', 0, ['lit', draw(st.integers(-20, 20)) * 5]])
                             it['attrs'].append(['shifty', 0, ['lit', draw(st.integers(-20, 20)) * 5]])
